@@ -35,14 +35,11 @@ ASSUMPTIONS = [
     "theorems are about the repaired code (fixes/F14.diff, F14b.diff, F14c.diff applied in /repo's working tree); the pinned variants are refuted by the pinned_* theorems",
 ]
 UNPROVED = [
-    "forced_only_unhealthy is proved for the processing of one position on the world the hook has when that position's turn comes "
-    "(processMtp on a synced world at an epoch boundary); the lift to `beginBlocker` as a whole (naming, for a position missing after "
-    "the hook, the intermediate world in which it was valued) is not stated as a theorem — on the implementation it is judged for "
-    "every liquidation (c13.forced, health as the hook computed it)",
+    "forced_only_unhealthy / beginBlocker_forces_only_unhealthy compare with the health the hook computes when the position's turn "
+    "comes (before that block's interest payment — stale by one payment — as the code does); no theorem says a position *below* the "
+    "safety factor is always liquidated (the liquidation may fail and is then skipped)",
     "bank-account locality (only clp module, trader, the two fund addresses) is proved for Open, Close, AdminClose/ForceClose; for the "
     "BeginBlocker it is only covered by the exact bank correspondence after every hook",
-    "the health the hook tests is the one computed before that block's interest payment (stale by one payment); the property is stated and "
-    "checked with that value, as the code defines it",
     "no theorem relates MarginOK to x/clp's own messages beyond the environment step of `run` (swaps and liquidity changes are modelled as "
     "arbitrary changes of the two balance fields; that they do not touch custody/liabilities is checked on the implementation after every clp operation)",
     "conservation of value in amounts (what the trader gets back equals swap result minus liabilities minus fund cut) is part of the exact "
@@ -59,8 +56,7 @@ MANIFEST = {
     "note": "Theorems are about the repaired tree (three defects of the pinned tree — F14 failed fund transfer persists a half-updated "
             "position, F14b liquidation failing after TakeOutCustody, F14c positions between two non-native assets — are reproduced by the "
             "check when a patch is reverted and refuted in Lean by kernel-checked witnesses). Not proved, only tested on the "
-            "implementation: bank-account locality of the hook, the lift of liquidation-only-when-unhealthy from one position's "
-            "processing to the whole BeginBlocker, amounts paid out. Trusted: Lean "
+            "implementation: bank-account locality of the hook, amounts paid out. Trusted: Lean "
             "kernel, hand-written model (tied by correspondence only), harness/driver, x/bank and store branching as modelled, interest "
             "rate as an environment value.",
     "technique": "Lean 4 proof + differential correspondence (model vs real Go)",
